@@ -111,6 +111,8 @@ func (e *lockupEnv) synthOracle(op string) {
 			key := "synthaccum:after-" + op
 			if real.Equal(e.real(base, coded)) && e.synthCause[sd] != "" && e.synthCause[sd] != "unexplained" {
 				key = "synthaccum:drift:" + e.synthCause[sd]
+			} else if e.accWiped["synth:"+sd] {
+				key = "synthaccum:drift:store-cleared-by-rebuild-of-prefix-denom"
 			}
 			e.o.Fail(key, fmt.Sprintf("after %s: accumulation(%s, duration>=%d) = %s, live synthetic locks' underlying amounts sum to %s%s",
 				op, sd, d, real, e.real(base, intent), e.histStr()))
@@ -504,12 +506,26 @@ func (e *lockupEnv) keeperTail(steps int, lastID *uint64, ms lockuptypes.MsgServ
 				e.synthCause[sd] = ""
 				if e.synthBase[sd] == dn {
 					for id, sy := range e.synth {
-						if sy.denom == sd {
+						if sy.denom != sd {
+							continue
+						}
+						if e.shadow[id].denom == dn {
 							e.codedAdd(sd, sy.dur, e.shadow[id].amt)
+						} else {
+							// a synthetic denomination whose NAME extends dn + "/super" but whose lock holds another (real)
+							// denomination, e.g. the real coin bar/superbonding/v1 with the synthetic denomination
+							// bar/superbonding/v1/superbonding/v1: cleared with dn's range, rewritten only from dn's own locks (F55)
+							e.pendingCause = "store-cleared-by-rebuild-of-prefix-denom"
+							e.accWiped["synth:"+sd] = true
+							o.Count("tail.rebuild.clears-store-of-extension-denoms-synthetic-denom:nested-name")
 						}
 					}
 				} else {
 					e.pendingCause = "store-cleared-by-rebuild-of-prefix-denom"
+					// the store of this synthetic denomination lies INSIDE the key range the rebuild of dn clears and rewrites
+					// (F55: overlapping ranges; what remains readable there is not what either rebuild wrote for it): every
+					// later mismatch of this store is that finding until an import rewrites it
+					e.accWiped["synth:"+sd] = true
 					o.Count("tail.rebuild.clears-store-of-extension-denoms-synthetic-denom")
 				}
 			}
